@@ -318,12 +318,12 @@ def run(ck):
         ck.sample(dict(direction="spec->code", scenario=behs[len(behs) // 2]))
         # ... a sample of them through the real spawn_bash and the bash agent
         with_att = [b for b in behs if b["outcomes"]]
-        for beh in r_.sample(with_att, min(len(with_att), ck.pick(25, 500))):
+        for beh in r_.sample(with_att, min(len(with_att), ck.pick(25, 100))):
             execute(case_of_beh(beh, good="Reference content"), True)
         # 3. code -> spec: random realistic scenarios
         for _ in range(ck.pick(1500, 25000)):
             execute(random_case(r_, allchf, True), False)
-        for _ in range(ck.pick(10, 200)):
+        for _ in range(ck.pick(10, 40)):
             execute(random_case(r_, allchf, False), True)
         ck.sample(dict(direction="code->spec", scenario={k: v for k, v in cases[-1].items() if k != "good"}, observed=events[-1]["result"]))
 
